@@ -22,6 +22,66 @@ def _ops_entry(pid, theorems, focus):
     )
 
 PROPS = {
+    "C13": dict(
+        driver="C13",
+        model="Model/Encode.v + Model/ResultDecode.v",
+        run_fn="run_c13case",
+        theorems=["C13_encode_matches_abi_except_h20_h24", "C13_h20_splice_to_direct_swaps_tables",
+                  "C13_h24_statx_direct_is_refused", "C13_encode_matches_abi_h20_refuted",
+                  "C13_encode_matches_abi_h24_refuted", "C13_encode_matches_abi_fails",
+                  "C13_fixed_file_iff_direct", "C13_alloc_and_cloexec_follow_requested_kind",
+                  "C13_result_done_iff_success", "C13_result_errno_is_the_calls",
+                  "C13_result_errno_reported_except_einval", "C13_result_einval_is_masked",
+                  "C13_from_raw_roundtrip", "C13_fallback_same_descriptor_regular", "C13_fallback_h21_refuted",
+                  "C13_fallback_h21_every_direct_socket_fallback", "C13_fallback_same_descriptor_fails",
+                  "C13_file_type_is_posix_macro", "C13_file_type_exclusive", "C13_permission_flags_are_mode_bits",
+                  "C13_timestamp_matches_posix_except_h9", "C13_timestamp_h9_panics", "C13_timestamp_h9_refuted",
+                  "C13_timestamp_matches_posix_fails", "C13_timestamp_fixed_matches_posix",
+                  "C13_wait_status_matches_posix_except_h22", "C13_wait_status_h22_always_wrong",
+                  "C13_wait_status_h22_refuted", "C13_wait_status_matches_posix_fails",
+                  "C13_wait_status_fixed_matches_posix", "C13_opt_decode_matches_posix"],
+        rule="one splitmix64 stream per case (VERIF_SEED, index); of every 20 cases 14 are encoding cases that walk "
+             "the 42 public operations round-robin (read, read_vectored, write, write_vectored, multishot_read, "
+             "splice_to/from, close, sync_all/sync_data, allocate, advise, truncate, metadata, open/open_temp_file via "
+             "OpenOptions, create_dir, remove_file/dir, rename, socket, connect, bind, listen, accept, multishot_accept, "
+             "send, send_to, send(_to)_vectored, recv, multishot_recv, recv_vectored/recv_from_vectored, recv_from, "
+             "shutdown, socket_option x12 types, set_socket_option x7, local/peer_addr, pipe, wait, Signals::receive, "
+             "mem::advise, Ring::pollable, to_direct_descriptor, to_file_descriptor, cancellation on drop), the "
+             "descriptor kind alternating per round (regular AsyncFd / direct AsyncFd obtained through a scripted "
+             "to_direct_descriptor), arguments from boundary pools and random values: offsets {not set, 0, 1, 511, 4096, "
+             "2^31, 2^32, 2^63-1, 2^63, 2^64-2, 2^64-1, random}, lengths {0, 1, 2..16, 17..300, 4096, random}, every "
+             "subset of the public flag constants, 5 Buf types, Vec and ReadBufPool buffers, 1..8 vectored buffers and a "
+             "mixed tuple, IPv4/IPv6/SocketAddr/Unix path/abstract/unnamed/NoAddress, builder methods in random order; "
+             "the operation is polled once on the simulated kernel and the consumed SQE plus everything the kernel would "
+             "read through its pointers (iovecs, msghdr, paths, addresses, length cells) is compared with the model; the "
+             "oracle decodes the SQE with a pinned ABI table and compares with the arguments passed. 2 cases script a "
+             "struct statx (7 file types + invalid, all permission bits, times incl. negative, i64 bounds), 1 a siginfo "
+             "(6 si_codes, exit codes 0..255, signals 1..64), 1 a socket option value or a new-descriptor result, 2 a "
+             "result word (success values, 14 errnos incl. EINTR/ECANCELED/EINVAL/EOPNOTSUPP/ENOSYS) for the default and "
+             "the 6 special fallbacks (socket fallbacks against a real socket of the process). Thorough adds a "
+             "differential run on the real kernel (pread/pwrite at offsets, statx, socket options, socket names; regular "
+             "and direct) against libc on identical fixtures; non-trivial = every case that ran; distinct by the Coq term",
+        assumptions=["x86-64 Linux ABI: struct layouts (io_uring_sqe 64 bytes, msghdr 56, iovec 16, statx 256, siginfo 128) "
+                     "and the constant values stated in Model/Encode.v and Model/ResultDecode.v (asserted against libc at start-up)",
+                     "abi_decode (coq/Model/Encode.v) and the harness's abi_call are the trusted statement of what an SQE means, "
+                     "written from io_uring_enter(2), liburing's io_uring_prep_* and the prep functions of io_uring/*.c; "
+                     "IOSQE_ASYNC and IOSQE_CQE_SKIP_SUCCESS do not change the call performed; the kernel ORs MSG_NOSIGNAL into send flags",
+                     "argument domains wf_op: lengths/flags u32, offsets u64, descriptor numbers < 2^31, direct indices < 2^20 in the "
+                     "harness (IORING_MAX_FIXED_FILES), socket address lengths < 2^16, callers cannot set O_CLOEXEC/SOCK_CLOEXEC or "
+                     "SPLICE_F_FD_IN_FIXED themselves (no public constant)",
+                     "socket address bytes and buffer (pointer, length) pairs are those of C16 and C14; C13 checks that they "
+                     "are put in the right fields",
+                     "READ_MULTISHOT: a10 passes offset 0, which the kernel ignores for the stream-like files the opcode is restricted to",
+                     "statx timestamps have 0 <= tv_nsec < 10^9 (kernel contract); siginfo from waitid has one of the six CLD_ codes, "
+                     "exit codes 0..255, signals 1..64; boolean socket options are reported as non-negative ints",
+                     "std's SystemTime/Duration arithmetic and ExitStatus accessors are modelled from their source (checked_add/sub on "
+                     "(i64 s, ns) pairs; the glibc W* macros)",
+                     "models are of the code as it is in /repo: timestamp and WaitInfo::status before proposed_fix_h9.diff / "
+                     "proposed_fix_h22.diff (run_c13case_fixed is the driver for the repaired code)"],
+        trusted=["simulated kernel harness/src/simk.rs (consumes SQEs, completes with scripted results)",
+                 "the ABI table abi_decode / abi_call (hand-written from the uapi; corroborated by the thorough-tier run on the real kernel)",
+                 "std::time::SystemTime, std::process::ExitStatus as reference in the harness oracle"],
+    ),
     "C04": dict(
         driver="C04",
         model="Model/SqRing.v",
